@@ -23,8 +23,9 @@ Inductive case :=
        (seqt : list (list result))      (* trace of each runtime running alone *)
        (conc : list (Z * result))       (* global trace of the concurrent run: (runtime, result) by completion time *)
        (abnormal : list Z)              (* [] = race detector silent and child ended normally; else [exit code] *)
-(* pinned witness of a recorded finding, run sequentially: what otto answered, the deviating
-   answer recorded in findings/C20.json, and the answer independence of runtimes requires *)
+(* pinned witness of a recorded finding, run sequentially: what otto answered, the answer the
+   model predicts (for an open finding: the recorded deviation; for a fixed one, kept as a regression
+   case: the required answer) and the answer independence of runtimes requires *)
 | CPin (class : Z) (obs deviating required : result).
 
 Definition res_eqb : result -> result -> bool := zlist_eqb.
